@@ -52,6 +52,10 @@ MUTANTS = [
     ("std_gamma guard: pow(u, shape) instead of pow(u, 1/shape)", C, "return g * pow(u, 1.0 / shape);", "return g * pow(u, shape);"),
     ("std_gamma guard: recursion with shape + 2", C, "const double g = cmb_random_std_gamma(shape + 1.0);", "const double g = cmb_random_std_gamma(shape + 2.0);"),
     ("std_gamma guard removed (the original defect)", C, "    if (shape < 1.0) {", "    if (0) {"),
+    ("normal tail: proposal scaled by x_tail_start instead of inv_tail_start (seeded C16-c)", C, "x = nor_zig_inv_tail_start * cmb_random_exponential(1.0);", "x = nor_zig_x_tail_start * cmb_random_exponential(1.0);"),
+    ("normal tail: acceptance test 2 * z < x * x", C, "} while (2 * z <= x * x);", "} while (2 * z < x * x);"),
+    ("normal tail: acceptance test z <= x * x (factor 2 lost)", C, "} while (2 * z <= x * x);", "} while (z <= x * x);"),
+    ("normal tail: result sign * x (tail start not added)", C, "return sign * (x + nor_zig_x_tail_start);", "return sign * x;"),
     ("weibull uses shape instead of 1/shape", H, "const double x = scale * pow(u, 1.0 / shape);", "const double x = scale * pow(u, shape);"),
 ]
 
